@@ -61,3 +61,46 @@ pub fn show(b: &[u8]) -> std::string::String {
     }
     s
 }
+
+/// Decimal literals that denote exactly the float `v` (an f32 value when `single`) under correct
+/// rounding: the shortest round-trip spelling, plus - for moderate magnitudes - a long literal just
+/// above the lower and one just below the upper boundary of `v`'s rounding interval.
+#[cfg(not(kani))]
+pub fn spellings(v: f64, single: bool) -> std::vec::Vec<std::string::String> {
+    let mut out = std::vec::Vec::new();
+    let short = if single { std::format!("{:e}", v as f32) } else { std::format!("{:e}", v) };
+    out.push(short.replace("inf", "1e999"));
+    let a = v.abs();
+    if !single || !v.is_finite() || a < 1e-10 || a > 1e15 {
+        return out;
+    }
+    let f = v as f32;
+    let bits = f.to_bits() & 0x7fff_ffff;
+    let mag = f32::from_bits(bits);
+    let lo = f32::from_bits(bits - 1) as f64;
+    let hi = f32::from_bits(bits + 1) as f64;
+    let lower_mid = (lo + mag as f64) / 2.0; // exact in f64
+    let upper_mid = (mag as f64 + hi) / 2.0;
+    let sign = if v < 0.0 { "-" } else { "" };
+    // exact decimal expansions (f64 values of this magnitude have < 100 fractional digits)
+    let exact = |x: f64| {
+        let s = std::format!("{:.100}", x);
+        let s = s.trim_end_matches('0').to_string();
+        s
+    };
+    let l = exact(lower_mid);
+    if l.contains('.') && !l.ends_with('.') {
+        out.push(std::format!("{}{}1", sign, l)); // just above the lower boundary
+    }
+    let u = exact(upper_mid);
+    if u.contains('.') && !u.ends_with('.') {
+        // decrement the last (non-zero) digit and append 9s: just below the upper boundary
+        let mut b = u.into_bytes();
+        let n = b.len();
+        b[n - 1] -= 1;
+        let mut t = std::string::String::from_utf8(b).unwrap();
+        t.push_str("9999");
+        out.push(std::format!("{}{}", sign, t));
+    }
+    out
+}
